@@ -26,6 +26,9 @@ def main():
         if want and not any(w in name for w in want):
             continue
         meta = json.load(open(os.path.join(d, "meta.json")))
+        if meta.get("thorough_only"):
+            print(name, "skipped (caught by the thorough tier only):", list(meta["thorough_only"]))
+            continue
         if meta.get("obsolete"):
             print(name, "skipped (obsolete):", meta["obsolete"][:80])
             continue
